@@ -11,24 +11,15 @@ From Coq Require Import String.
 Open Scope N_scope.
 
 (* The full statement "forall c s, wf s -> agrees (parse c s) (ref_decode (view s))" is FALSE for the code
-   as it is: one witness per recorded defect class (known_findings.txt, property C02). *)
-Theorem C02_parse_eq_ref_refuted_arp_short :
-  exists c s, wf s /\ bytes_ok (arr s) /\ known_C02 (view s) = Some "parse-arp-short"%string /\
-              ~ agrees (parse c s) (ref_decode (view s)).
-Proof. exact eq_ref_refuted_arp_short. Qed.
-Print Assumptions C02_parse_eq_ref_refuted_arp_short.
-
-Theorem C02_parse_eq_ref_refuted_arp_hlen :
-  exists c s, wf s /\ bytes_ok (arr s) /\ known_C02 (view s) = Some "parse-arp-hlen"%string /\
-              ~ agrees (parse c s) (ref_decode (view s)).
-Proof. exact eq_ref_refuted_arp_hlen. Qed.
-Print Assumptions C02_parse_eq_ref_refuted_arp_hlen.
-
-Theorem C02_parse_eq_ref_refuted_vlan_short :
-  exists c s, wf s /\ bytes_ok (arr s) /\ known_C02 (view s) = Some "parse-vlan-short"%string /\
-              ~ agrees (parse c s) (ref_decode (view s)).
-Proof. exact eq_ref_refuted_vlan_short. Qed.
-Print Assumptions C02_parse_eq_ref_refuted_vlan_short.
+   as it is: one witness per recorded defect class (known_findings.txt, property C02).  The three classes
+   of layer_frame.go itself (parse-arp-short, parse-arp-hlen, parse-vlan-short) were repaired by this cluster;
+   the remaining three lie in IP4.IsValid / IP6.IsValid (VIEWS cluster's functions). *)
+Example C02_repaired_witnesses_agree :
+  agreesb (parse cfg0 (of_bytes w_arp_short)) (ref_decode w_arp_short) = true /\
+  agreesb (parse cfg0 (of_bytes w_arp_hlen)) (ref_decode w_arp_hlen) = true /\
+  agreesb (parse cfg0 (of_bytes w_vlan16)) (ref_decode w_vlan16) = true.
+Proof. exact fixed_witnesses_agree. Qed.
+Print Assumptions C02_repaired_witnesses_agree.
 
 Theorem C02_parse_eq_ref_refuted_ip4_ihl :
   exists c s, wf s /\ bytes_ok (arr s) /\ known_C02 (view s) = Some "parse-ip4-ihl"%string /\
@@ -48,7 +39,7 @@ Theorem C02_parse_eq_ref_refuted_ip6_trailing :
 Proof. exact eq_ref_refuted_ip6_trailing. Qed.
 Print Assumptions C02_parse_eq_ref_refuted_ip6_trailing.
 
-(* Outside the six classes (a decidable predicate on the bytes within the length), for every well-formed slice
+(* Outside the three classes (a decidable predicate on the bytes within the length), for every well-formed slice
    of any capacity and spare contents, every session configuration, bytes < 256 and a frame shorter than 65536
    bytes (uint16 wrap of IPv6 PayloadLen+40): Parse reports an error exactly when the reference decoder does,
    and otherwise PayloadID, source/destination MAC, IP and port, presence and start offset of the IPv4 / IPv6 /
